@@ -33,7 +33,11 @@ func workerC12Kill(args []string) int {
 	if err != nil {
 		return 2
 	}
-	w := &world.World{Sandbox: filepath.Dir(workDir), WorkDir: workDir, Cfg: world.Cfg{Mode: "crl_only", Storage: "disk", Sig: "verify", Fetch: "fetch_actively", Interval: "1h"}}
+	sig := "verify"
+	if len(args) >= 3 {
+		sig = args[2]
+	}
+	w := &world.World{Sandbox: filepath.Dir(workDir), WorkDir: workDir, Cfg: world.Cfg{Mode: "crl_only", Storage: "disk", Sig: sig, Fetch: "fetch_actively", Interval: "1h"}}
 	if err := w.Provision(); err != nil {
 		fmt.Fprintln(os.Stderr, "provision:", err)
 		return 3
@@ -104,7 +108,8 @@ func c12Kill(c *vk.Ctx, rng *rand.Rand) int {
 		os.Mkdir(workDir, 0o755)
 		certFile := filepath.Join(sandbox, "chain.pem")
 		os.WriteFile(certFile, append(pki.PEMCert(leaves["x"][0][0]), pki.PEMCert(ca.Cert)...), 0o644)
-		cmd := exec.Command(self, "worker", "c12kill", workDir, certFile)
+		sig := []string{"verify", "none", "verify_log"}[i%3]
+		cmd := exec.Command(self, "worker", "c12kill", workDir, certFile, sig)
 		cmd.Stdout, cmd.Stderr = nil, nil
 		if err := cmd.Start(); err != nil {
 			c.Infra("start kill worker: %v", err)
@@ -115,7 +120,7 @@ func c12Kill(c *vk.Ctx, rng *rand.Rand) int {
 		cmd.Wait()
 		// restart on the same work_dir: nothing can be fetched, strict on
 		org.Set("/kill.crl", origin.Behaviour{Kind: "body", Body: []byte("gone")})
-		w := &world.World{Sandbox: sandbox, WorkDir: workDir, Cfg: world.Cfg{Mode: "crl_only", Storage: "disk", Sig: "verify", Fetch: "fetch_actively", CdpStrict: true, Interval: "1h"}}
+		w := &world.World{Sandbox: sandbox, WorkDir: workDir, Cfg: world.Cfg{Mode: "crl_only", Storage: "disk", Sig: sig, Fetch: "fetch_actively", CdpStrict: true, Interval: "1h"}}
 		if err := w.Provision(); err != nil {
 			c.Violation("provision-fails-after-kill", "a validator cannot be provisioned on the work_dir of a killed process: "+err.Error(), map[string]any{"delay_ms": delay.Milliseconds()})
 		} else {
@@ -129,7 +134,7 @@ func c12Kill(c *vk.Ctx, rng *rand.Rand) int {
 			done++
 			if ok && got != "xz" && got != "yz" {
 				c.Violation("loaded-after-kill-with-partial-data", fmt.Sprintf("killed after %v; the restarted validator treats the location as loaded with revoked={%s}; the complete lists are {xz} and {yz}", delay, got),
-					map[string]any{"delay_ms": delay.Milliseconds(), "after_restart": res})
+					map[string]any{"delay_ms": delay.Milliseconds(), "after_restart": res, "signature_validation_mode": sig})
 			}
 			l := w.Listing()
 			if len(l.Temps) > 0 {
